@@ -142,6 +142,11 @@ pub fn mode_label(m: Mode) -> &'static str {
 /// deterministic).  A mode-independent operation that starts to consult the
 /// thread default is then exposed.
 pub fn ambient_mode<C: std::hash::Hash>(case: &C, ctx: &mut engine::Ctx) -> Mode {
+    if engine::pristine() {
+        // this process never touches the rounding mode: the initial RoundHalfEven is in force
+        ctx.label("pristine-process");
+        return Mode::HalfEven;
+    }
     let m = Mode::from_index((engine::case_hash(case) >> 17) as u8 % 8);
     RoundingMode::set_default(mode_to_fpdec(m));
     if m != Mode::HalfEven {
@@ -152,6 +157,11 @@ pub fn ambient_mode<C: std::hash::Hash>(case: &C, ctx: &mut engine::Ctx) -> Mode
 }
 
 pub fn set_mode(m: u8) -> Mode {
+    if engine::pristine() {
+        // this process never touches the rounding mode: the case is judged under the initial
+        // RoundHalfEven whatever mode it asks for
+        return Mode::HalfEven;
+    }
     let m = Mode::from_index(m);
     RoundingMode::set_default(mode_to_fpdec(m));
     m
@@ -520,6 +530,24 @@ pub fn related_d(x: D, kind: u8, k: u8, d: i128) -> D {
             D::new(x.c, k % 19)
         }
     }
+}
+
+/// "Unit-like" operands: +-m * 10^z at scale s with m in {1, 2, 5, 25, 125, 3, 7} (mostly 1) - the
+/// steps, quanta, divisors and factors people actually write (1, -1, 10, 0.1, 0.01, -0.010, 0.05, 0.25 ...)
+pub fn arb_unit_d() -> BoxedStrategy<D> {
+    (prop_oneof![6 => Just(1i128), 1 => Just(2i128), 1 => Just(5), 1 => Just(25), 1 => Just(125), 1 => Just(3), 1 => Just(7)], 0u32..=4, 0u8..=18, any::<bool>())
+        .prop_map(|(m, z, s, neg)| {
+            let c = m * 10i128.pow(z);
+            D::new(if neg { -c } else { c }, s)
+        })
+        .boxed()
+}
+
+/// a unit-like operand paired with an arbitrary or a human-scale operand, in either order
+pub fn arb_unit_pair() -> BoxedStrategy<(D, D)> {
+    (arb_unit_d(), prop_oneof![2 => arb_d(), 3 => (-10_000_000i128..=10_000_000, 0u8..=9).prop_map(|(c, s)| D::new(c, s)), 1 => arb_unit_d()], any::<bool>())
+        .prop_map(|(u, x, swap)| if swap { (u, x) } else { (x, u) })
+        .boxed()
 }
 
 pub fn arb_related_pair() -> BoxedStrategy<(D, D)> {
